@@ -107,11 +107,10 @@ def classify(events, toks, oracle):
                     classes.append("fd-refused")
                 else:
                     classes.append("no-owner-" + en)
-                if owner != "x":
-                    if en == "NotSupported" and ty == "c" and not nr:
-                        stale.append((c, int(owner), ser))
-                    if rser and (en == "NotSupported" or (ty == "c" and en in ("LimitsExceeded", "AccessDenied"))):
-                        consumed.append((int(owner), c, rser))
+                # F7b: a method call carrying REPLY_SERIAL is a reply first (consumes the slot) and can then still be refused.
+                # (stale slots -- F7 proper, an fd-carrying call refused NotSupported -- no longer exist since the fix.)
+                if owner != "x" and rser and ty == "c" and en in ("LimitsExceeded", "AccessDenied"):
+                    consumed.append((int(owner), c, rser))
         elif f[0] in "DT":
             for _, d in items:
                 if d.startswith("E.NoReply"):
@@ -157,11 +156,12 @@ def attributable_to_f7(code_tok, step_event, step_tok, stale, consumed):
 
 
 def load_known(prop_id):
+    """known-findings.json, completed by entries proposed in notes/<id>.findings.json that are not merged there yet"""
     known = vlib.load_known(prop_id)
-    if not known:
-        p = os.path.join(vlib.VERIF, "notes", "%s.findings.json" % prop_id)
-        if os.path.exists(p):
-            known = [e for e in json.load(open(p)) if e.get("property") == prop_id and e.get("status") == "known"]
+    p = os.path.join(vlib.VERIF, "notes", "%s.findings.json" % prop_id)
+    if os.path.exists(p):
+        have = {k["id"] for k in known}
+        known += [e for e in json.load(open(p)) if e.get("property") == prop_id and e.get("status") == "known" and e["id"] not in have]
     return known
 
 
@@ -176,7 +176,7 @@ def load_corpus(prop_id):
 def run_check(ctx, prop_id, cases, own_codes, nontrivial_classes, correspondence_name):
     rep, info = ctx["rep"], ctx["info"]
     known = load_known(prop_id)
-    f7 = next((k for k in known if k["id"] == "F7"), None)
+    f7 = next((k for k in known if k["id"] == "F7b"), None)
     if ctx.get("replay"):
         r = json.load(open(ctx["replay"]))["replay"]
         cases = [(r.get("name") or "replay", tuple(r["cfg"]), list(r["events"]))]
